@@ -8,6 +8,7 @@
    Definitions only. *)
 From Coq Require Import List Arith Bool.
 From M Require Import Base Flat.
+From M Require Hsm.
 Import ListNotations.
 
 (* ------------------------------------------------------------------ machine classes *)
@@ -137,7 +138,10 @@ Inductive op : Type :=
 | OAddState (s : state) (sd : sdef)
 | OAddTransition (e : event) (t : trans)
 | OTrigger (m : model) (byname : bool) (e : event) (payload : nat)
-| ODispatch (e : event) (payload : nat).
+| ODispatch (e : event) (payload : nat)
+| OCopy.      (* the machine and all model objects are replaced by pickle.loads(pickle.dumps(..)) / copy.deepcopy(..):
+                 the copy has the same models, states, helpers and tables — re-keyed by the new ids (C15) — and
+                 no further table *)
 
 Record block : Type := mkBlk { b_model : model; b_items : list item; b_res : exn + bool }.
 
@@ -336,6 +340,13 @@ Section Step.
         end
     end.
 
+  (* the copy: LockedMachine.__getstate__ stores the contexts of the REGISTERED models only (a stale entry left by
+     a removed model's helper is gone), __setstate__ re-keys them by the new ids; model_graphs is not pickled,
+     GraphMachine.__setstate__ builds a fresh graph for every registered model; the other tables are carried over *)
+  Definition copy_world (w : mworld) : mworld :=
+    let w1 := if k_locked k then set_ctx w (w_models w) else w in
+    if k_graph k then set_graphs w1 (w_models w1) else w1.
+
   Definition cres_of (r : exn + bool) : cres :=
     match r with inl e => inl e | inr b => inr (Some b) end.
 
@@ -348,6 +359,7 @@ Section Step.
     | OAddTransition e t => let '(r, w') := add_transition w e t in ([], r, w')
     | OTrigger m bn e a => let '(b, w') := trigger_on w m bn e a in ([b], cres_of (b_res b), w')
     | ODispatch e a => let '(bs, r, w') := dispatch_loop (w_models w) w e a in (bs, cres_of r, w')
+    | OCopy => ([], inr None, copy_world w)
     end.
 
   Definition step_w (w : mworld) (o : op) : mworld := snd (step w o).
@@ -454,3 +466,21 @@ Definition call_name (d0 d1 : mdesc) (act : nat -> hname -> state -> state) (o :
       | Some s => Some (mkSobj (set_assoc (so_attrs o) a (act who n s)) (so_tbl o))
       end
   end.
+
+(* ------------------------------------------------------------------ a model's OWN initial state on a hierarchical
+   machine: add_model(model, initial=<any state, nested or not, Enum member or path string>) puts the model into
+   that state and its initial substates (HierarchicalMachine._resolve_initial; no callbacks); None = the
+   machine's initial state; a registered model is left alone. *)
+Definition own_config (states : list Hsm.sdefn) (ini : Hsm.path) : Hsm.forest :=
+  match Hsm.find_def states ini with
+  | Some d => Hsm.chain_tree ini (Hsm.initial_tree Hsm.def_depth_bound d)
+  | None => []
+  end.
+
+Definition own_add (states : list Hsm.sdefn) (dflt : Hsm.path) (w : list (model * Hsm.forest))
+           (a : model * option Hsm.path) : list (model * Hsm.forest) :=
+  if existsb (fun p => Nat.eqb (fst p) (fst a)) w then w
+  else w ++ [(fst a, own_config states (match snd a with Some p => p | None => dflt end))].
+
+Definition own_run (states : list Hsm.sdefn) (dflt : Hsm.path) (adds : list (model * option Hsm.path))
+           (w : list (model * Hsm.forest)) : list (model * Hsm.forest) := fold_left (own_add states dflt) adds w.
